@@ -20,7 +20,7 @@ P = {
         "C15_query_only_removed", "C15_query_only_removed_pinned", "C15_query_kept_bytes", "C15_parse_encode_roundtrip",
         "C15_headers_name_by_name", "C15_pipeline_header_wins", "C15_pipeline_header_on_the_wire", "C15_pipeline_host_wins",
         "C15_no_forwarded_passthrough", "C15_forwarded_extended_by_peer", "C15_header_names_any_casing",
-        "C15_spec_holds",
+        "C15_spec_holds", "C15_sequence_spec_holds",
         "C15_F1_pinned_refuted", "C15_F4_pinned_refuted", "C15_F2_refuted", "C15_F3_refuted", "C15_F5_refuted",
         "C15_F6_refuted", "C15_F7_refuted", "C15_F8_observed_refuted", "C15_F9_refuted",
         "C15_nonvacuous",
@@ -57,10 +57,14 @@ P = {
             "Transport to raw TCP upstreams (plain and TLS); corpus (every finding's witness, the audit's cases, edge targets) first.  "
             "Non-trivial = forwarded AND at least one of: an escaped path met strip/add prefix, a stripped parameter was present, a client "
             "header collided with a pipeline header, the client sent a forwarding / X-Forwarded-Method/-Uri/-Path field; distinct by hash of "
-            "the input.  Stream units: Backend.CreateURL on arbitrary url.URL values x rewrite configurations.  Stream e2e: the real assembled "
+            "the input.  SESSIONS: 45 % of the generated requests come in sessions of 2-5 requests through ONE rule / Backend / URLRewriter instance, "
+            "the followers mostly carrying the previous request's path in ANOTHER SPELLING (equal after percent-decoding: %2F vs /, %61 vs a, "
+            "hex case, %3B vs ;), so state kept on the instance between requests shows as a mismatch of a later request.  Stream units: "
+            "Backend.CreateURL on arbitrary url.URL values x rewrite configurations, likewise in sessions on one Backend instance.  Stream e2e: the real assembled "
             "proxy application (fx wiring of cmd/serve, YAML configuration and rule file with 24 generated rules /r<i>/**, real executor, "
             "repository, anonymous authenticator, header and cookie finalizers, tracing ENABLED) under 2 trusted_proxies configurations, "
-            "cases sent in parallel batches of 8 with a correlation field; non-trivial = forwarded.",
+            "cases sent in parallel batches of 8 sessions with a correlation field (40 % followers: same rule, previous path in another "
+            "spelling, sent right after it); non-trivial = forwarded.",
     "anchors": ["internal/rules/config/backend.go", "internal/rules/config/url_rewriter.go", "internal/rules/rule_impl.go",
                 "internal/handler/proxy/request_context.go", "internal/handler/proxy/service.go",
                 "internal/handler/requestcontext/extract_url.go", "internal/handler/requestcontext/extract_method.go",
